@@ -40,7 +40,7 @@ ENCODING = ["fcp.encoding:PackedEncoder._get_type_length", "fcp.encoding:PackedE
             "fcp.encoding:PackedEncoder._generate_compound_type", "fcp.encoding:PackedEncoder._generate",
             "fcp.encoding:PackedEncoder.generate", "fcp.specs.impl:Impl.get_signal", "fcp.specs.v2:FcpV2.get_type",
             "fcp.specs.v2:FcpV2.get_struct", "fcp.specs.v2:FcpV2.get_enum", "fcp.specs.enum:Enum.get_packed_size",
-            "fcp.specs.type:NumericType.get_length"]
+            "fcp.specs.type:NumericType.get_length", "fcp.specs.enum:Enum.max", "lemmas:max_is_enum_max"]
 
 PLANS = {
     "C04": {
